@@ -706,6 +706,8 @@ def main(tier):
         check_mirror(rep, c)
     rep.attempt(check_rollback, rep)
     import rollbackpair, llir, c19
+    import c06 as _c06
+    rep.attempt(_c06.check_spec_advance, rep)       # error exits of the asm decoders report only bytes that were written
     rep.attempt(rollbackpair.check, rep, llir.library('default'), c19.field_offsets('struct inflate_state', rollbackpair.IN_FIELDS + rollbackpair.OUT_FIELDS))
     rep.attempt(check_trailer_consume, rep)
     import c11, llir
